@@ -171,7 +171,7 @@ def main(chk: Check) -> None:
     jobs: T.List[T.Dict[str, T.Any]] = []
     for k in range(n_c):
         r2 = random.Random(chk.seed * 104729 + k)
-        p = projgen.random_project(r2, n_targets=r2.randint(3, 12))
+        p = projgen.random_project(r2, n_targets=r2.randint(3, 12), custom_inputs=True, alias_runs=True)
         pre = r2.choice(['/usr/local', '/usr', '/opt/p q'])
         jobs.append({'id': f'R{k}', 'kind': 'proj', 'p': p, 'views': True, 'flavour': f'randomC#{k}',
                      'extra_args': [f'--prefix={pre}'] + r2.choice([[], ['--libdir=lib'], ['--bindir=/abs/bin']])
